@@ -341,6 +341,30 @@ def run(tier, seed, replay=None):
                 fail('revolve', dict(axis=n.tolist(), theta=ang), 'the last section is not the profile rotated by theta')
         except Exception as e:  # noqa
             fail('revolve', dict(axis=n.tolist(), theta=ang), 'raised %s' % type(e).__name__)
+        # the solid of revolution of a surface profile (volume_factory.revolve), same statement
+        try:
+            prof2 = sf.edge_curves(prof, prof.clone().translate([0.5, 0.0, 0.25]))
+            rv3 = vf.revolve(prof2, ang, n)
+            count('revolve volume')
+            for k_ in range(5):
+                u = prof2.start(0) + (prof2.end(0) - prof2.start(0)) * rng.random()
+                v = prof2.start(1) + (prof2.end(1) - prof2.start(1)) * rng.random()
+                w = rv3.end(2) if k_ == 0 else rv3.start(2) + (rv3.end(2) - rv3.start(2)) * rng.random()
+                q = np.asarray(rv3.evaluate(u, v, w)).reshape(-1)
+                p0 = np.asarray(prof2.evaluate(u, v)).reshape(-1)
+                hq, hp = np.dot(q, nh), np.dot(p0, nh)
+                rq, rp = np.linalg.norm(q - hq * nh), np.linalg.norm(p0 - hp * nh)
+                if abs(hq - hp) > TOL * 10 or abs(rq - rp) > TOL * 10:
+                    fail('revolve volume', dict(axis=n.tolist(), theta=ang), 'a point of the revolved solid is not a rotated profile point (height %r vs %r, radius %r vs %r)' % (hq, hp, rq, rp))
+                    break
+                if k_ == 0:
+                    a_p = p0 - hp * nh
+                    want = hp * nh + a_p * np.cos(ang) + np.cross(nh, a_p) * np.sin(ang)
+                    if np.linalg.norm(q - want) > 1e-6:
+                        fail('revolve volume', dict(axis=n.tolist(), theta=ang), 'the last section is not the profile rotated by theta about the axis')
+                        break
+        except Exception as e:  # noqa
+            fail('revolve volume', dict(axis=n.tolist(), theta=ang), 'raised %s' % type(e).__name__)
         amount = np.array([rng.randint(-4, 4) / 2.0 for _ in range(3)])
         if np.linalg.norm(amount) > 0:
             ex = sf.extrude(prof, amount)
